@@ -7,6 +7,7 @@ use std::{
 use tokio::sync::Notify;
 
 use crate::{
+    host::accepted_local_addr,
     net::{SocketPair, TcpStream},
     world::World,
     ToSocketAddrs, TRACING_TARGET,
@@ -67,7 +68,7 @@ impl TcpListener {
         let origin = loop {
             let maybe_accept = World::current(|world| {
                 let host = world.current_host_mut();
-                host.tcp.accept(self.local_addr)
+                host.tcp.accept(self.local_addr, host.addr)
             });
 
             let Some((syn, origin)) = maybe_accept else {
@@ -89,13 +90,7 @@ impl TcpListener {
             let (pair, rx) = {
                 let host = world.current_host_mut();
 
-                let mut my_addr = self.local_addr;
-                if origin.ip().is_loopback() {
-                    my_addr.set_ip(origin.ip());
-                }
-                if my_addr.ip().is_unspecified() {
-                    my_addr.set_ip(host.addr);
-                }
+                let my_addr = accepted_local_addr(self.local_addr, origin, host.addr);
 
                 let pair = SocketPair::new(my_addr, origin);
                 let (rx, _) = host.tcp.new_stream(pair);
